@@ -26,18 +26,49 @@ ELIM = ["greedy", "MinFill", "MinNeighbors", "MinWeight", "WeightedMinFill", Non
 
 @st.composite
 def query_case(draw, max_nodes=6, name_kinds=("str", "word", "int", "tuple"), allow_virtual=True):
-    spec = draw(gen.bn_spec(max_nodes=max_nodes, name_kinds=name_kinds))
+    spec = draw(gen.bn_spec(max_nodes=max_nodes, name_kinds=name_kinds, latents=True))
     nodes = spec["nodes"]
+    twins = None
+    if len(nodes) >= 2 and len(nodes) <= 5 and draw(st.integers(0, 5)) == 0:
+        # "identical sensors": two extra leaves with the same CPD under a common parent, both observed in the same state
+        h = nodes[draw(st.integers(0, len(nodes) - 1))]
+        new = {"str": ["S1", "S2"], "word": ["sens1", "sens2"], "kw": ["S1", "S2"], "int": [90, 91], "tuple": [("s", 1), ("s", 2)]}[spec["name_kind"]]
+        kh = spec["card"][nodes.index(h)]
+        cols = [draw(gen.column(2, ("dense", "dense", "zeros"))) for _ in range(kh)]
+        table = [[cols[j][i] for j in range(kh)] for i in range(2)]
+        for t in new:
+            spec["nodes"].append(t)
+            spec["card"].append(2)
+            spec["states"].append(["lo", "hi"])
+            spec["edges"].append([h, t])
+            spec["cpds"].append({"var": t, "parents": [h], "table": [list(r) for r in table]})
+        spec["explicit_states"] = True
+        spec["has_twin_cpds"] = True
+        twins = (h, new)
+        nodes = spec["nodes"]
     n = len(nodes)
     J = Joint.from_bn(spec)
     support = sorted(J.support_assignments())
+    if twins:
+        same = [x for x in support if x[J.idx[twins[1][0]]] == x[J.idx[twins[1][1]]]]
+        support = same or support
     a = support[draw(st.integers(0, len(support) - 1))]
     order = list(draw(st.permutations(nodes)))
-    nq = draw(st.integers(1, min(3, n)))
-    query = order[:nq]
-    rest = order[nq:]
-    ne = draw(st.integers(0, len(rest)))
-    ev_vars = rest[:ne]
+    if twins:
+        # query something that is neither the common parent nor a sensor (when there is such a node); observe both sensors
+        others = [v for v in order if v not in twins[1] and v != twins[0]]
+        order = (others[:1] or [twins[0]]) + [v for v in order if v not in twins[1] and v not in others[:1] and v != twins[0]] + ([twins[0]] if others[:1] else [])
+        nq = 1
+        query = order[:1]
+        rest = list(twins[1]) + [v for v in order[1:] if v != twins[0]]
+        ne = draw(st.integers(2, max(2, len(rest))))
+        ev_vars = rest[:ne]
+    else:
+        nq = draw(st.integers(1, min(3, n)))
+        query = order[:nq]
+        rest = order[nq:]
+        ne = draw(st.integers(0, len(rest)))
+        ev_vars = rest[:ne]
     evidence = [[v, spec["states"][J.idx[v]][a[J.idx[v]]]] for v in ev_vars]
     virtual = []
     if allow_virtual and spec["name_kind"] in ("str", "word", "kw"):
@@ -94,6 +125,10 @@ def check_query(case, out):
     n_elim = len(spec["nodes"]) - len(query) - len(evidence)
     out.nontrivial = len(spec["nodes"]) >= 3 and len(spec["edges"]) >= 2 and n_elim >= 1 and bool(evidence or virtual)
     out.cls(f"names_{spec['name_kind']}", f"shape_{spec['shape']}", f"n{len(spec['nodes'])}")
+    if spec.get("latents"):
+        out.cls("declares_latents")
+    if spec.get("has_twin_cpds"):
+        out.cls("twin_cpds")
     if evidence:
         out.cls("hard_evidence")
     if virtual:
